@@ -462,9 +462,10 @@ unsafe fn clear_cache(start: *mut u8, end: *mut u8) {
 
     #[cfg(target_os = "macos")]
     {
-        // The cache is invalidated in patch_function.
-        let _ = start;
-        let _ = end;
+        // patch_function invalidates the entry it rewrites (through its alias); everything else
+        // written through inject_asm_code (the trampoline) is code too and has to be invalidated
+        // before it is executed.
+        sys_icache_invalidate(start, end as usize - start as usize);
     }
 
     // On ARM64, explicitly synchronize the CPU pipeline.
